@@ -405,6 +405,78 @@ fn run_huge_f32(out: &mut JobOut) {
     out.sample = Some(Json::str("f32 axis = every second float from 1.0, 2^24 + 2 knots"));
 }
 
+/// Dynamic-rank data with many trailing axes, queried through static rank-1, static rank-2 and
+/// dynamic query arrays (results of up to 22 axes): shape and every element.
+fn run_high_rank(trailing_axes: usize, out: &mut JobOut) {
+    use ndarray::{Array1, Array2, ArrayD, IxDyn};
+    use ndarray_interp::interp1d::{Interp1DBuilder, Linear};
+    let x = vec![-1.0, 0.5, 1.0, 3.0];
+    let mut shape = vec![4usize];
+    for k in 0..trailing_axes {
+        shape.push(if k == 0 || k + 1 == trailing_axes { 2 } else { 1 });
+    }
+    let lanes: usize = shape[1..].iter().product();
+    let val = |i: usize, k: usize| -> f64 { [1.0, -0.5, 2.0, 0.25, -3.0, 1.5, 0.875][(3 * i + 5 * k) % 7] * (1 + (i + k) % 3) as f64 };
+    let mut c = 0usize;
+    let data = ArrayD::from_shape_fn(IxDyn(&shape), |_| {
+        let (i, k) = (c / lanes, c % lanes);
+        c += 1;
+        val(i, k)
+    });
+    let key = format!("high-rank:{trailing_axes}-trailing-axes");
+    let ip = match catch(|| Interp1DBuilder::new(data.clone()).x(Array1::from(x.clone())).strategy(Linear::new()).build()) {
+        Ok(Ok(ip)) => ip,
+        other => {
+            out.violate(format!("{key}:build"), format!("valid dynamic-rank data not accepted: {:?}", other.map(|r| r.map(|_| ()))), Json::Null);
+            return;
+        }
+    };
+    out.states += 1;
+    let q = vec![-1.0, 0.875, 2.5, 3.0];
+    let mut results: Vec<(&str, Vec<usize>, Result<ArrayD<f64>, String>)> = vec![];
+    let q1 = Array1::from(q.clone());
+    results.push(("interp_array(Ix1 query)", vec![4], catch(|| ip.interp_array(&q1)).and_then(|r| r.map(|a| a.into_dyn()).map_err(|e| e.to_string()))));
+    let q2 = Array2::from_shape_vec((2, 2), q.clone()).unwrap();
+    results.push(("interp_array(Ix2 query)", vec![2, 2], catch(|| ip.interp_array(&q2)).and_then(|r| r.map(|a| a.into_dyn()).map_err(|e| e.to_string()))));
+    let qd = ArrayD::from_shape_vec(IxDyn(&[1, 4, 1]), q.clone()).unwrap();
+    results.push(("interp_array(dynamic query)", vec![1, 4, 1], catch(|| ip.interp_array(&qd)).and_then(|r| r.map_err(|e| e.to_string()))));
+    {
+        let mut ws = vec![4usize];
+        ws.extend_from_slice(&shape[1..]);
+        let mut buf = ArrayD::from_elem(IxDyn(&ws), f64::NAN);
+        let r = catch(|| ip.interp_array_into(&q1, buf.view_mut())).and_then(|r| r.map_err(|e| e.to_string()));
+        results.push(("interp_array_into(Ix1 query)", vec![4], r.map(|_| buf)));
+    }
+    for (call, qshape, res) in results {
+        let mut want_shape = qshape.clone();
+        want_shape.extend_from_slice(&shape[1..]);
+        out.evals += 1;
+        out.nontrivial += 1;
+        out.transitions += 1;
+        let what = match &res {
+            Ok(a) if a.shape() != &want_shape[..] => Some(format!("result shape {:?}, expected {:?}", a.shape(), want_shape)),
+            Ok(a) => {
+                let mut bad = None;
+                for (e, &got) in a.iter().enumerate() {
+                    let (qi, k) = (e / lanes, e % lanes);
+                    let i = bracket_scan(&x, q[qi]);
+                    let (exact, _) = chord_ref(x[i], val(i, k), x[i + 1], val(i + 1, k), q[qi]);
+                    if !(err_dd(got, exact) <= 8.0 * f64::EPSILON * 9.0) {
+                        bad = Some(format!("element {e} is {got:e}, the chord gives {:e}", exact.to_f64()));
+                        break;
+                    }
+                }
+                bad
+            }
+            Err(e) => Some(format!("not answered: {e}")),
+        };
+        if let Some(w) = what {
+            out.violate(format!("{key}:{call}").replace(' ', ""), format!("Linear over dynamic-rank data of shape {shape:?}, {call}: {w}"), Json::usizes(&shape));
+        }
+    }
+    out.sample = Some(Json::usizes(&shape));
+}
+
 fn body(ctx: &Ctx) -> (Summary, Meta) {
     let mut jobs = vec![];
     for f32 in [false, true] {
@@ -468,13 +540,18 @@ fn body(ctx: &Ctx) -> (Summary, Meta) {
         run_reuse(j.0, j.1, &mut out);
         out
     }));
+    sum.merge(run_jobs(ctx, "high-rank-dynamic-data", &[4usize, 5, 7, 12, 18], |t| format!("high-rank:{t}-trailing-axes"), |t| {
+        let mut out = JobOut::default();
+        run_high_rank(*t, &mut out);
+        out
+    }));
     sum.merge(run_jobs(ctx, "huge-f32-axis", &[()], |_| "huge-f32-axis".to_string(), |_| {
         let mut out = JobOut::default();
         run_huge_f32(&mut out);
         out
     }));
     let meta = Meta {
-        rule: "every axis of the alphabet (value-set subsets incl. ulp clusters and far offsets, interval words, long deviation-bounded words, non-dyadic axes, default index axes) x all data lanes x every query {knot, both float neighbours of every knot, quarter points, range ends} x 4 entry points; oracle = exact rational chord through the two knots found by linear scan. Non-trivial = query strictly inside an interval whose two knot values differ. Phase axis-storage-reuse: every ordered pair (A, B) of different interval words over {1, 2, 1/2} with 3..5 knots: an interpolator over a view of a buffer holding A is queried at every knot and quarter point and dropped, the buffer is overwritten with B and a second interpolator over the same view is queried; both against the exact chord. Phase huge-f32-axis: an f32 axis of 2^24 + 2 knots (every second float from 1.0; the last index is not representable in f32), knots and exact midpoints of 13 cells at the ends, at binade boundaries and at the very end.".into(),
+        rule: "every axis of the alphabet (value-set subsets incl. ulp clusters and far offsets, interval words, long deviation-bounded words, non-dyadic axes, default index axes) x all data lanes x every query {knot, both float neighbours of every knot, quarter points, range ends} x 4 entry points; oracle = exact rational chord through the two knots found by linear scan. Non-trivial = query strictly inside an interval whose two knot values differ. Phase axis-storage-reuse: every ordered pair (A, B) of different interval words over {1, 2, 1/2} with 3..5 knots: an interpolator over a view of a buffer holding A is queried at every knot and quarter point and dropped, the buffer is overwritten with B and a second interpolator over the same view is queried; both against the exact chord. Phase high-rank-dynamic-data: IxDyn data with 4 .. 18 trailing axes through static rank-1 / rank-2 and dynamic query arrays, shape and every element. Phase huge-f32-axis: an f32 axis of 2^24 + 2 knots (every second float from 1.0; the last index is not representable in f32), knots and exact midpoints of 13 cells at the ends, at binade boundaries and at the very end.".into(),
         bounds: format!("{njobs} (type, axis) jobs; tier {}", ctx.tier.name()),
         assumptions: vec!["tolerance 8 eps max(|y1|,|y2|) (a few ulps of the larger bracketing value)".into()],
         extra: vec![],
